@@ -97,8 +97,13 @@ def stream_roulette(ctx, lcu):
     nmax, emax = budget(t, (5, 6), (6, 7))
 
     def one(ws):
-        res, exc = call(lcu._preprocess_for_efficient_roulette_selection, list(ws))
-        case = {'fn': '_preprocess_for_efficient_roulette_selection', 'weights': list(ws)}
+        import numpy
+        kind = rng.choice(['list', 'list', 'tuple', 'int64', 'int32']) if len(ws) else 'list'
+        arg = {'list': list(ws), 'tuple': tuple(ws), 'int64': numpy.array(ws, dtype=numpy.int64),
+               'int32': numpy.array(ws, dtype=numpy.int32)}[kind]
+        res, exc = call(lcu._preprocess_for_efficient_roulette_selection, arg)
+        case = {'fn': '_preprocess_for_efficient_roulette_selection', 'weights': list(ws), 'container': kind}
+        s.count('container=' + kind)
         n = len(ws)
         ok_input = n > 0 and sum(ws) % n == 0
         s.case(case, nontrivial=ok_input and any(w * n != sum(ws) for w in ws))
@@ -141,7 +146,8 @@ def stream_roulette(ctx, lcu):
 def rand_coeffs(rng):
     n = rng.choice([1, 2, 3, 4, 5, 6, 8, 12, 16])
     while True:
-        cs = [rng.choice([0, 1, 1, 2, 3, 5, 8, 13, 100]) / rng.choice([1, 2, 4, 8, 64]) for _ in range(n)]
+        den = rng.choice([[1], [1, 2, 4, 8, 64], [1, 2, 4, 8, 64]])
+        cs = [rng.choice([0, 1, 1, 2, 3, 5, 8, 13, 100]) / rng.choice(den) for _ in range(n)]
         if sum(cs) > 0:
             break
     if rng.random() < 0.6:
@@ -186,10 +192,18 @@ def stream_lcu(ctx, lcu):
         if tie:
             s.discards += 1
             continue
-        case = {'fn': 'preprocess_lcu_coefficients_for_reversible_sampling', 'lcu_coefficients': cs, 'epsilon': eps}
+        import numpy
+        integral = all(float(c).is_integer() for c in cs)
+        kind = rng.choice(['list', 'list', 'tuple', 'float64'] + (['pyint', 'int64'] if integral else []))
+        arg = {'list': list(cs), 'tuple': tuple(cs), 'float64': numpy.array(cs, dtype=numpy.float64),
+               'pyint': [int(c) for c in cs] if integral else None,
+               'int64': numpy.array(cs, dtype=numpy.int64) if integral else None}[kind]
+        case = {'fn': 'preprocess_lcu_coefficients_for_reversible_sampling', 'lcu_coefficients': cs, 'epsilon': eps,
+                'container': kind}
         s.case(case, nontrivial=n >= 2)
         s.count('n=%d' % n)
-        res, exc = call(lcu._discretize_probability_distribution, list(cs), eps)
+        s.count('container=' + kind)
+        res, exc = call(lcu._discretize_probability_distribution, arg, eps)
         if exc:
             s.violate('unexpected exception in _discretize_probability_distribution: ' + exc, case, {})
             continue
@@ -199,7 +213,7 @@ def stream_lcu(ctx, lcu):
               [('discretisation: numerators do not sum to n 2^mu or are not within epsilon',
                 {'op': 'c19.spec.discretize', 'probs': frs(cs), 'eps': fr(eps), 'numers': numers, 'denom': denom, 'mu': mu},
                 is_true)])
-        res, exc = call(lcu.preprocess_lcu_coefficients_for_reversible_sampling, list(cs), eps)
+        res, exc = call(lcu.preprocess_lcu_coefficients_for_reversible_sampling, arg, eps)
         if exc:
             s.violate('unexpected exception ' + exc, case, {})
             continue
@@ -218,16 +232,29 @@ def stream_lcu(ctx, lcu):
 VALS = [-2, -1.5, -1, -0.5, -0.25, 0, 0, 0.25, 0.5, 0.75, 1, 2]
 
 
-def sym_matrix(rng, n):
+VALS_INT = [-3, -2, -1, -1, 0, 0, 1, 1, 2, 3, 5, 7]
+
+
+def sym_matrix(rng, n, vals=VALS):
     import numpy
     m = numpy.zeros((n, n))
     for p in range(n):
         for q in range(p, n):
-            m[p, q] = m[q, p] = rng.choice(VALS)
+            m[p, q] = m[q, p] = rng.choice(vals)
     return m
 
 
-def sym8_tensor(rng, n):
+def as_dtype(rng, arr, kind):
+    """the same (integer- or dyadic-valued) array as the requested numpy dtype / memory layout"""
+    import numpy
+    a = arr.astype({'float64': numpy.float64, 'float32': numpy.float32, 'int64': numpy.int64,
+                    'int32': numpy.int32, 'complex128': numpy.complex128}[kind])
+    if rng.random() < 0.25:
+        a = numpy.asfortranarray(a)
+    return a
+
+
+def sym8_tensor(rng, n, vals_set=VALS):
     """two_body[p, q, r, s] (OpenFermion order) from chemist integrals (ps|qr) with eight-fold symmetry"""
     import numpy
     G = numpy.zeros((n,) * 4)
@@ -235,7 +262,7 @@ def sym8_tensor(rng, n):
     for p, q, r, s in itertools.product(range(n), repeat=4):
         key = min([(p, q, r, s), (q, p, r, s), (p, q, s, r), (q, p, s, r), (r, s, p, q), (s, r, p, q), (r, s, q, p), (s, r, q, p)])
         if key not in vals:
-            vals[key] = rng.choice(VALS)
+            vals[key] = rng.choice(vals_set)
         G[p, q, r, s] = vals[key]
     return numpy.ascontiguousarray(G.transpose(0, 2, 3, 1))
 
@@ -281,8 +308,10 @@ def mol_terms(const, h, g):
 
 def stream_norms(ctx, of, lcu, gon):
     import numpy
-    s = Stream('one-norms', 'lambda_norm on random real symmetric DiagonalCoulombHamiltonians (n <= 5) and get_one_norm_int / '
-               '_woconst on random eight-fold symmetric integrals (n_orb <= 3), dyadic entries; compared exactly with the Model; '
+    s = Stream('one-norms', 'lambda_norm on random real symmetric DiagonalCoulombHamiltonians (n <= 5; one_body as float64 / float32 / '
+               'complex128, C or Fortran order) and get_one_norm_int / _woconst on random eight-fold symmetric integrals (n_orb <= 3) '
+               'given as float64 / float32 (dyadic entries) or int64 / int32 numpy arrays (odd integer entries; Python lists are '
+               'rejected by the code: no .shape); compared exactly with the Model; '
                'Spec: the returned number equals the sum of |c_P| of the Pauli decomposition of the fermionic Hamiltonian computed '
                'from the Spec action of ladder operators on all Fock states (n <= 5 qubits for DCH, n_orb <= 2, a few n_orb = 3); '
                'non-trivial = at least 2 orbitals')
@@ -294,13 +323,24 @@ def stream_norms(ctx, of, lcu, gon):
         return lambda a: a is not None and Fraction(a[0], a[1]) == x
     for _ in range(budget(t, 300, 1500)):
         n = rng.choice([1, 2, 2, 3, 3, 4, 5])
-        T, V = sym_matrix(rng, n), sym_matrix(rng, n)
+        vals = rng.choice([VALS, VALS, VALS_INT])
+        T, V = sym_matrix(rng, n, vals), sym_matrix(rng, n, vals)
         const = rng.choice([0.0, 0.5, -1.25])
-        H = of.DiagonalCoulombHamiltonian(T.copy(), V.copy(), constant=const)
+        # one_body may be float64 / float32 / complex (real values); two_body must be float64 (checked by the class);
+        # integer one_body is rejected by the class itself (in-place += of a float diagonal)
+        kind = rng.choice(['float64', 'float64', 'float32', 'complex128'])
+        try:
+            H = of.DiagonalCoulombHamiltonian(as_dtype(rng, T, kind), as_dtype(rng, V, 'float64'), constant=const)
+        except Exception as e:  # noqa: BLE001
+            s.violate('DiagonalCoulombHamiltonian rejects a real symmetric input: ' + type(e).__name__,
+                      {'fn': 'lambda_norm', 'one_body': T.tolist(), 'two_body': V.tolist(), 'dtype': kind}, {})
+            continue
         val, exc = call(lcu.lambda_norm, H)
-        case = {'fn': 'lambda_norm', 'one_body': T.tolist(), 'two_body': V.tolist(), 'constant': const}
+        case = {'fn': 'lambda_norm', 'one_body': T.tolist(), 'two_body': V.tolist(), 'constant': const,
+                'one_body_dtype': kind}
         s.case(case, nontrivial=n >= 2)
         s.count('lambda_norm:n=%d' % n)
+        s.count('lambda_norm:dtype=' + kind)
         if exc:
             s.violate('unexpected exception ' + exc, case, {})
             continue
@@ -313,13 +353,30 @@ def stream_norms(ctx, of, lcu, gon):
     n3 = 0
     for _ in range(budget(t, 200, 1000)):
         n = rng.choice([1, 2, 2, 2, 3])
-        h, g = sym_matrix(rng, n), sym8_tensor(rng, n)
-        const = rng.choice([0.0, 0.5, -1.25, 2.0])
-        a, e1 = call(gon.get_one_norm_int, const, h, g)
-        w, e2 = call(gon.get_one_norm_int_woconst, h, g)
-        case = {'fn': 'get_one_norm_int', 'constant': const, 'one_body_integrals': h.tolist(), 'two_body_integrals': g.tolist()}
+        # integer-valued integrals are also given as numpy integer arrays (the accumulators of the code must not
+        # inherit the integer dtype: 1/2 * g would be truncated), dyadic ones as float64 / float32
+        kind_h = rng.choice(['float64', 'float64', 'int64', 'int32', 'float32'])
+        kind_g = rng.choice([kind_h, kind_h, 'float64', 'int64'])
+        ints = kind_h.startswith('int') or kind_g.startswith('int') or rng.random() < 0.2
+        h, g = sym_matrix(rng, n, VALS_INT if ints else VALS), sym8_tensor(rng, n, VALS_INT if ints else VALS)
+        const = rng.choice([0.0, 0.5, -1.25, 2.0]) if not ints else rng.choice([0, 1, -2, 0.5])
+        via = rng.choice(['int', 'int', 'mol'])
+        if via == 'mol':
+            # the MolecularData wrappers only read three attributes
+            import types
+            mol = types.SimpleNamespace(nuclear_repulsion=const, one_body_integrals=as_dtype(rng, h, kind_h),
+                                        two_body_integrals=as_dtype(rng, g, kind_g))
+            a, e1 = call(gon.get_one_norm_mol, mol)
+            w, e2 = call(gon.get_one_norm_mol_woconst, mol)
+        else:
+            a, e1 = call(gon.get_one_norm_int, const, as_dtype(rng, h, kind_h), as_dtype(rng, g, kind_g))
+            w, e2 = call(gon.get_one_norm_int_woconst, as_dtype(rng, h, kind_h), as_dtype(rng, g, kind_g))
+        case = {'fn': 'get_one_norm_int', 'constant': const, 'one_body_integrals': h.tolist(), 'two_body_integrals': g.tolist(),
+                'dtypes': [kind_h, kind_g], 'via': via}
+        s.count('get_one_norm:via=' + via)
         s.case(case, nontrivial=n >= 2)
         s.count('get_one_norm:n_orb=%d' % n)
+        s.count('get_one_norm:dtypes=%s/%s' % (kind_h, kind_g))
         if e1 or e2:
             s.violate('unexpected exception %s' % (e1 or e2), case, {})
             continue
@@ -351,8 +408,13 @@ def stream_qrom(ctx, ut):
     t = 'thorough' if ctx.drift else ctx.tier
     b = Batch(ctx, s)
 
+    def npint(x):
+        import numpy
+        r = rng.random()
+        return numpy.int64(x) if r < 0.15 else numpy.int32(x) if r < 0.25 and x < 2 ** 31 else x
+
     def qr_case(L, M):
-        res, exc = call(ut.QR, L, M)
+        res, exc = call(ut.QR, npint(L), npint(M))
         case = {'fn': 'QR', 'L': L, 'M': M}
         s.case(case, nontrivial=L > M)
         s.count('QR')
@@ -381,7 +443,7 @@ def stream_qrom(ctx, ut):
     qr_case(3, 5)
 
     def qi_case(L):
-        res, exc = call(ut.QI, L)
+        res, exc = call(ut.QI, npint(L))
         case = {'fn': 'QI', 'L': L}
         s.case(case, nontrivial=L > 1)
         s.count('QI')
@@ -423,7 +485,7 @@ def stream_qrom(ctx, ut):
                   [('QI2: not a minimiser over the searched grid',
                     {'op': 'c19.spec.grid2', 'kind': 'qi2', 'L1': L1, 'L2': L2, 'p1': r[0], 'p2': r[1], 'val': r[2]}, is_true)])
     for m in list(range(0, budget(t, 2049, 4097))) + [rng.randrange(1, 2 ** 40) * 2 ** rng.randrange(0, 20) for _ in range(200)]:
-        res, exc = call(ut.power_two, m)
+        res, exc = call(ut.power_two, npint(m))
         case = {'fn': 'power_two', 'm': m}
         s.case(case, nontrivial=m > 0 and m % 2 == 0)
         s.count('power_two')
@@ -641,12 +703,19 @@ def replay(ctx, payload):
     ut = importlib.import_module('openfermion.resource_estimates.utils')
     try:
         if fn == '_preprocess_for_efficient_roulette_selection':
+            import numpy
             ws = case['weights']
-            alt, keep = lcu._preprocess_for_efficient_roulette_selection(list(ws))
+            kind = case.get('container', 'list')
+            arg = tuple(ws) if kind == 'tuple' else numpy.array(ws, dtype=kind) if kind in ('int64', 'int32') else list(ws)
+            alt, keep = lcu._preprocess_for_efficient_roulette_selection(arg)
             return d.one({'op': 'c19.spec.alias', 'ws': ws, 'alt': [int(x) for x in alt], 'keep': [int(x) for x in keep]}) is True
         if fn in ('preprocess_lcu_coefficients_for_reversible_sampling', '_discretize_probability_distribution'):
+            import numpy
             cs, eps = case['lcu_coefficients'], case['epsilon']
-            alt, keep, mu = lcu.preprocess_lcu_coefficients_for_reversible_sampling(list(cs), eps)
+            kind = case.get('container', 'list')
+            arg = (tuple(cs) if kind == 'tuple' else numpy.array(cs, dtype=kind) if kind in ('int64', 'float64')
+                   else [int(c) for c in cs] if kind == 'pyint' else list(cs))
+            alt, keep, mu = lcu.preprocess_lcu_coefficients_for_reversible_sampling(arg, eps)
             return d.one({'op': 'c19.spec.lcu', 'coeffs': frs(cs), 'eps': fr(eps), 'alt': [int(x) for x in alt],
                           'keep': [int(x) for x in keep], 'mu': int(mu)}) is True
         if fn in ('thc', 'sparse') and 'params' in case:
@@ -679,7 +748,8 @@ def replay(ctx, payload):
             return d.one({'op': 'c19.spec.power_two', 'm': case['m'], 'c': int(ut.power_two(case['m']))}) is True
         if fn == 'lambda_norm':
             import numpy
-            T, V = numpy.array(case['one_body'], dtype=float), numpy.array(case['two_body'], dtype=float)
+            T = numpy.array(case['one_body'], dtype=float).astype(case.get('one_body_dtype', 'float64'))
+            V = numpy.array(case['two_body'], dtype=float)
             H = ctx.of.DiagonalCoulombHamiltonian(T.copy(), V.copy(), constant=case['constant'])
             x = Fraction(float(lcu.lambda_norm(H)))
             terms = dch_terms(numpy.array(H.one_body).real, numpy.array(H.two_body), H.constant)
@@ -688,8 +758,9 @@ def replay(ctx, payload):
         if fn in ('get_one_norm_int', 'get_one_norm_int_woconst'):
             import numpy
             gon = importlib.import_module('openfermion.functionals.get_one_norm')
-            h = numpy.array(case['one_body_integrals'], dtype=float)
-            g = numpy.array(case['two_body_integrals'], dtype=float)
+            kinds = case.get('dtypes', ['float64', 'float64'])
+            h = numpy.array(case['one_body_integrals'], dtype=float).astype(kinds[0])
+            g = numpy.array(case['two_body_integrals'], dtype=float).astype(kinds[1])
             const = case['constant']
             terms = enc_ferm(mol_terms(const, h, g))
             if fn == 'get_one_norm_int':
